@@ -1269,6 +1269,10 @@ fn check_spec_reserved_keys(key: &[u8], mut value: &[u8]) -> Result<(), Error> {
             #[cfg(not(any(feature = "k256", feature = "rust-secp256k1")))]
             let _ = pubkey_bytes;
         }
+        b"ed25519" => {
+            // the decoder only accepts a byte string here
+            Bytes::decode(&mut value)?;
+        }
         _ => {
             // any other value must still be a well-formed RLP item
             let header = Header::decode(&mut value)?;
